@@ -22,17 +22,34 @@ def cfg_pad(tier, seed):
     t2, t3 = (4, 3) if tier == 'quick' else (5, 4)
     out = [{'in': [r, c], 'out': [R, C], 'cube': False} for r, c, R, C in itertools.product(range(1, t2 + 1), repeat=4)]
     out += [{'in': [r, c], 'out': [R, C], 'cube': True} for r, c, R, C in itertools.product(range(1, t3 + 1), repeat=4)]
+    out += [{'in': [r, c], 'out': [R, C], 'cube': cube, 'kind': 'complex'} for r, c, R, C in itertools.product(range(1, 3), repeat=4) for cube in (True, False)]
     return out, len(out), True
 
 
 def run_pad(W, cfg):
     lt = W.lentil
     (r, c), (R, C) = cfg['in'], cfg['out']
-    if cfg['cube']:
+    if cfg.get('kind') == 'complex':
+        # complex fields and stacks of them: both parts are carried over
+        planes = [W.complexes(f'a{d}', (r, c)) for d in range(2)]
+        a = W.array([[[planes[d][i, j] for j in range(c)] for i in range(r)] for d in range(2)]) if cfg['cube'] else planes[0]
+    elif cfg['cube']:
         a = W.array([[[W.real(f'a_{d}_{i}_{j}') for j in range(c)] for i in range(r)] for d in range(2)])
     else:
         a = W.reals('a', (r, c))
     out = lt.pad(a, (R, C))
+    if cfg.get('kind') == 'complex':
+        def dtypes_ok():
+            for dt in (rnp.int8, rnp.uint16, rnp.int64, rnp.float32, rnp.complex64, rnp.complex128, bool):
+                base = (rnp.arange(2 * r * c).reshape(2, r, c) % 3 + 1)
+                x = (base * (1 + 2j)).astype(dt) if rnp.issubdtype(dt, rnp.complexfloating) else base.astype(dt)
+                x = x if cfg['cube'] else x[0]
+                y = lt.pad(x, (R, C))
+                per = rnp.array([lt.pad(x[d], (R, C)) for d in range(2)]) if cfg['cube'] else y
+                if y.dtype != x.dtype or not rnp.array_equal(y, per):
+                    return False
+            return True
+        W.ob_concrete('pad keeps the dtype (narrow integers, float32, complex) and pads a cube like its planes one by one', dtypes_ok)
 
     def ref(plane, i, j):
         x, y = i - R // 2 + r // 2, j - C // 2 + c // 2
@@ -290,6 +307,10 @@ def cfg_hex(tier, seed):
     out.append({'what': 'count', 'rings': 2, 'rotate': False, 'drop': [0, 3, 3]})
     out.append({'what': 'count', 'rings': 1, 'rotate': True, 'drop': [5, 99]})
     out.append({'what': 'count', 'rings': 1, 'rotate': False, 'drop': [0, 0]})
+    for rf in ('int', 'npbool'):
+        for rot in (True, False):
+            out.append({'what': 'count', 'rings': 1, 'rotate': rot, 'drop': [], 'rotform': rf, '_concrete': 1})
+            out.append({'what': 'count', 'rings': 2, 'rotate': rot, 'drop': [], 'R': 4, 'g': 0, 'rotform': rf, '_concrete': 1})
     for c in out:
         if c['what'] == 'count':
             c['_concrete'] = 1          # no symbolic input: counted as concrete-only obligations on the real code
@@ -300,6 +321,9 @@ def run_hex(W, cfg):
     lt = W.lentil
     S = W.mod('segmented')
     rings, rot = cfg['rings'], cfg['rotate']
+    if cfg.get('rotform'):
+        # the flag as 0 / 1 or as a numpy boolean (the result of a comparison) means what the literal means
+        rot = int(rot) if cfg['rotform'] == 'int' else rnp.bool_(rot)
     if cfg['what'] == 'count':
         R, g = cfg.get('R', 2.5), cfg.get('g', 0.5)
         m = lt.hex_segments(rings, R, g, rotate=rot, antialias=False, drop=tuple(cfg['drop']), pad=2)
@@ -327,6 +351,15 @@ def run_hex(W, cfg):
                       bool(fl_[:k_].sum() == 0 and fl_[-k_:].sum() == 0 and fl_[:, :k_].sum() == 0 and fl_[:, -k_:].sum() == 0))
         f2 = lt.hex_segments(rings, R, g, rotate=rot, antialias=False, drop=tuple(cfg['drop']), pad=2, flatten=True)
         W.ob_true('flatten = sum of the segments', bool((W.concrete(f2) == flat).all()))
+        if cfg.get('rotform'):
+            lit = bool(cfg['rotate'])
+            for aa_ in (False, True):
+                a_ = W.concrete(lt.hex_segments(rings, R, g, rotate=rot, antialias=aa_, pad=2))
+                b_ = W.concrete(lt.hex_segments(rings, R, g, rotate=lit, antialias=aa_, pad=2))
+                W.ob_true(f'rotate={rot!r} draws the aperture of rotate={lit} (antialias={aa_})', a_.shape == b_.shape and bool((a_ == b_).all()))
+                h1 = W.concrete(lt.hexagon((9, 11), 3.5, shift=(0.25, -0.5), rotate=rot, antialias=aa_))
+                h2 = W.concrete(lt.hexagon((9, 11), 3.5, shift=(0.25, -0.5), rotate=lit, antialias=aa_))
+                W.ob_true(f'rotate={rot!r} draws the hexagon of rotate={lit} (antialias={aa_})', bool((h1 == h2).all()))
         return
     W.no_ite_pruning()
     # geometry on a symbolic real sample position: every segment is hexagon() translated to hex_to_rc(); no position belongs to two
